@@ -251,5 +251,45 @@ def rule_o5(repo):
     return res
 
 
+def rule_o6(repo):
+    """A bound that crosses the opposite bound of its variable is a contradiction whatever the variable's
+    role in the tableau is at that moment.  In assert_upper / assert_lower the new bound is stored (self.bound[x] = ..)
+    only on paths on which it was compared with the opposite bound and found compatible; a crossing bound stored
+    for a basic variable is never looked at again (check() moves the variable to that bound and makes it non-basic)."""
+    from ..cfg import cfg_of
+    res = RuleResult('C16.O6', 'a new bound is stored only after it was compared with the opposite bound of the variable', floor=4)
+    for rel in ('prover/simplex.py', 'prover/simplex_strict.py'):
+        cls = repo.module(rel).classes.get('Simplex')
+        need(cls is not None, '%s: class Simplex not found' % rel)
+        for mname, opp_index in (('assert_upper', 0), ('assert_lower', 1)):
+            f = need(cls.find_method(mname), '%s: Simplex.%s not found' % (rel, mname))
+            ps = f.params()
+            x, c = ps[1], ps[2]
+            cfg = cfg_of(f.node)
+            # l, u = self.bound[x]
+            unpack = [a for a in ast.walk(f.node) if isinstance(a, ast.Assign) and isinstance(a.targets[0], (ast.Tuple, ast.List)) and len(a.targets[0].elts) == 2 and
+                      src(a.value, 40) == 'self.bound[%s]' % x]
+            need(unpack, '%s.%s: `l, u = self.bound[%s]` not found' % (rel, mname, x))
+            opp = unpack[0].targets[0].elts[opp_index].id
+            stores = [n for n in cfg.stmt_nodes(ast.Assign) if isinstance(n.ast.targets[0], ast.Subscript) and src(n.ast.targets[0], 40) == 'self.bound[%s]' % x]
+            need(stores, '%s.%s: store of the new bound not found' % (rel, mname))
+            tests = [t for t in cfg.test_nodes() if compare_parts(t.ast) and {src(compare_parts(t.ast)[1], 20), src(compare_parts(t.ast)[2], 20)} == {c, opp}]
+            ok = bool(tests)
+            why = 'no comparison of %s with the opposite bound %s' % (c, opp)
+            if tests:
+                t = tests[0]
+                # the side of the comparison that raises
+                raising = [l for bn, l in t.succ if cfg.exit.id not in cfg.reach_from([bn]) or isinstance(bn.ast, ast.Raise)]
+                passing = [(t.id, l) for bn, l in t.succ if l not in raising]
+                ok = bool(raising) and all(cfg.path_avoiding(st, skip_edges=passing) is None for st in stores)
+                why = ('the comparison `%s` never rejects' % src(t.ast, 20)) if not raising else \
+                    'line %d stores the bound on a path that has not passed `%s`' % (stores[0].lineno, src(t.ast, 20))
+            res.add('%s :: Simplex.%s :: crossing-test-before-store' % (rel, mname), ok,
+                    'every store of the new bound is behind the comparison with %s' % opp if ok else
+                    why + ' -- for a variable that is basic at that moment the crossing bound is stored silently; x+y >= -5, x+y <= -7 was answered SAT with x = -7, y = 0',
+                    f.loc)
+    return res
+
+
 def rules(repo):
-    return [rule_o1(repo), rule_o2(repo), rule_o3(repo), rule_o4(repo), rule_o5(repo)]
+    return [rule_o1(repo), rule_o2(repo), rule_o3(repo), rule_o4(repo), rule_o5(repo), rule_o6(repo)]
